@@ -3,6 +3,8 @@
     check_proc(exo_proc) -> list[str]          mismatches (empty: equal, or outside the fragment)
     check_proc_full(exo_proc, driver=None)     -> {"status": "covered"|"skipped"|"mismatch",
                                                    "why": str, "mismatches": [...], "modOK": bool|None,
+                                                   "wtC": bool|None (the emitted tree incl. callees is well-typed
+                                                   mini-C, lean/ExoModel/CTyping.lean `wtFun`),
                                                    "freeOK": bool|None  (static `free` discipline of the emitted body,
                                                    lean/ExoModel/CompileS.lean `freeOK`; False = F7 situation),
                                                    "real": [...], "model": [...]}
@@ -221,7 +223,7 @@ def check_proc_full(exo_proc, driver=None):
     common.import_exo()
     from exo.API import compile_procs_to_strings
 
-    res = {"status": "skipped", "why": "", "mismatches": [], "modOK": None, "freeOK": None, "real": [], "model": []}
+    res = {"status": "skipped", "why": "", "mismatches": [], "modOK": None, "freeOK": None, "wtC": None, "real": [], "model": []}
     ir0 = exo_proc.INTERNAL_proc() if hasattr(exo_proc, "INTERNAL_proc") else exo_proc
     name = str(ir0.name)
     try:
@@ -295,6 +297,7 @@ def check_proc_full(exo_proc, driver=None):
             res["model"] = model
             res["modOK"] = ans["modOK"]       # of the target INCLUDING its callees (the model compiles them inside the call)
             res["freeOK"] = ans.get("freeOK")
+            res["wtC"] = ans.get("wtC")         # the emitted tree (callees included) is well-typed mini-C (CTyping.wtFun)
         for k in range(max(len(real), len(model))):
             a = real[k] if k < len(real) else "<missing>"
             b = model[k] if k < len(model) else "<missing>"
@@ -332,6 +335,8 @@ def self_test(verbose=False):
     bad = []
     f6 = []
     f7 = []
+    wt = Counter()
+    illtyped = []
     for nm, src in _programs().items():
         try:
             mod = exo_build.build_module(src)
@@ -351,6 +356,10 @@ def self_test(verbose=False):
                 f6.append(f"{nm}/{pn}")
             if r["status"] in ("covered", "mismatch") and r["freeOK"] is False:
                 f7.append(f"{nm}/{pn}")
+            if r["status"] in ("covered", "mismatch"):
+                wt[r["wtC"]] += 1
+                if r["wtC"] is not True:
+                    illtyped.append(f"{nm}/{pn}")
             if verbose and r["status"] == "covered":
                 print(f"--- {nm}/{pn}: {len(r['real'])} lines equal, modOK={r['modOK']}")
     close()
@@ -362,6 +371,7 @@ def self_test(verbose=False):
         print(f"  skipped {v:3d}  {k}")
     print(f"  covered with a possibly-negative `%` numerator (modOK=false, F6): {sorted(f6)}")
     print(f"  compiled but NOT satisfying the static free discipline (freeOK=false, F7): {sorted(f7)}")
+    print(f"  well-typed mini-C (wtC, C15a): true={wt[True]} false={wt[False]} missing={wt[None]}  ill-typed: {sorted(illtyped)}")
     for nm, pn, mm in bad:
         for m in mm[:6]:
             print(f"  MISMATCH {nm}: {m}")
